@@ -500,6 +500,9 @@ func c16Reuse(c *fw.Case, jb []byte, fresh *jwsutil.JWK) {
 		if err := v.UnmarshalJSON(ob); err != nil {
 			continue
 		}
+		if first, err := v.PublicKeyBytes(); err == nil && len(first) > 0 {
+			first[0] ^= 0xff // what an accessor returns belongs to the caller
+		}
 		c.Count("decoder-reuse", 1)
 		c.Evals(1)
 		c.Sig("reuse", ot, fresh.Crv)
@@ -530,6 +533,39 @@ func c16Reuse(c *fw.Case, jb []byte, fresh *jwsutil.JWK) {
 // 32-byte curve (the point is not on that curve): rejected whatever was seen before, by VerifySignature and by UnmarshalJSON.
 func c16Relabelled(c *fw.Case) {
 	r := c.Rng
+	// JWKs carrying the optional members alg / use / kid (with the algorithm name that belongs to the curve) survive the round trip too
+	for _, typ := range gen.AllKeyTypes {
+		k := gen.NewKey(r, typ)
+		j := jwsutil.JWK{}
+		j.Key = k.Public()
+		j.Algorithm, j.Use, j.KeyID = k.Alg(), "sig", "key-1"
+		if typ == gen.Secp256k1 {
+			j.Kty, j.Crv = "EC", gen.Secp256k1
+		}
+		c.Count("jwk-with-optional-members", 1)
+		c.Evals(2)
+		c.Sig("jwk-optional", typ)
+		text, err := j.MarshalJSON()
+		if err != nil {
+			c.Failf("to-jwk-error", map[string]interface{}{"curve": typ, "err": err.Error()}, "MarshalJSON of a %s key with alg/use/kid failed: %v", typ, err)
+			continue
+		}
+		var back jwsutil.JWK
+		if err := back.UnmarshalJSON(text); err != nil {
+			c.Failf("read-back-error", map[string]interface{}{"jwk": string(text), "err": err.Error()}, "a %s JWK with alg %s, use and kid is not read back: %v", typ, k.Alg(), err)
+			continue
+		}
+		if !reflect.DeepEqual(back.Key, j.Key) {
+			switch bk := back.Key.(type) {
+			case *ecdsa.PublicKey:
+				if bk.X.Cmp(k.EC.X) != 0 || bk.Y.Cmp(k.EC.Y) != 0 {
+					c.Failf("read-back-differs", map[string]interface{}{"jwk": string(text)}, "key read back from a JWK with optional members differs from the original")
+				}
+			default:
+				c.Failf("read-back-differs", map[string]interface{}{"jwk": string(text)}, "key read back from a JWK with optional members differs from the original")
+			}
+		}
+	}
 	// reading a JWK (verifying with it, extracting its key) leaves the caller's object as it was - nonce included - so that
 	// commitments computed from it before and after agree
 	for _, typ := range gen.AllKeyTypes {
